@@ -2,6 +2,7 @@ package harness
 
 import (
 	"fmt"
+	"strconv"
 	"strings"
 	"time"
 )
@@ -120,7 +121,7 @@ func GenC12(r *RNG) *CliPlan {
 
 // onlyOwnBytes: every byte of a body a caller got comes from the pattern of its own response.
 func onlyOwnBytes(k int, body []byte) (int, bool) {
-	tag := fmt.Sprintf("<resp %d>", k)
+	tag := "<resp " + strconv.Itoa(k) + ">"
 	for i := range body {
 		if body[i] != tag[i%len(tag)] {
 			return i, false
